@@ -100,4 +100,8 @@ pub assume_specification<T: core::cmp::PartialEq, A: core::alloc::Allocator>[ Ve
 
 pub assume_specification<T: Copy>[ Option::<&T>::copied ](o: Option<&T>) -> (r: Option<T>)
     ensures r == (match o { Some(v) => Some(*v), None => None::<T> });
+
+// <[T]>::sort (reached through Vec's DerefMut): a permutation of the elements (order not specified here)
+pub assume_specification<T: core::cmp::Ord>[ <[T]>::sort ](s: &mut [T])
+    ensures final(s)@.to_multiset() == old(s)@.to_multiset(), final(s)@.len() == old(s)@.len();
 } // verus!
